@@ -362,7 +362,14 @@ def scan_const(relpath, regex, conv=int):
 
 
 def channel_capacity():
-    return scan_const("src/bin/s4.rs", r"^const CHANNEL_CAPACITY: usize = (\d+);")
+    try:
+        cap = scan_const("src/bin/s4.rs", r"CHANNEL_CAPACITY\s*:\s*usize\s*=\s*(\d+)\s*;")
+    except ToolError as ex:
+        # the channels' capacity could not be read off the source: the model runs with the documented value; its
+        # statements are bound to the code by traces and replays, so a different real value shows up as DRIFT
+        print("NOTE design-parameter scan: %s; CAP taken as 5" % ex, file=sys.stderr, flush=True)
+        return 5
+    return min(cap, 8)      # (the model's bound on the capacity; larger channels behave alike for M <= CAP + 1)
 
 
 # --------------------------------------------------------------------------------------------
